@@ -45,6 +45,13 @@ type c12case struct {
 	FailingWriter bool `json:"destination_reports_an_error,omitempty"`
 	// context keys are registered on the logger and the call passes a nil context (where the entry point takes one)
 	NilCtxKeys bool `json:"nil_context_and_registered_context_keys,omitempty"`
+	// the package level was set to Off (slog.SetLevel) BEFORE this logger became the default one: the default logger's
+	// own level decides for the package-level functions
+	PkgLevelOff bool `json:"package_level_off_before_setdefault,omitempty"`
+	// a go test process that rewrites os.Args at run time (CLI tests do) is still a go test process
+	RewriteArgs bool `json:"os_args_rewritten_at_run_time,omitempty"`
+	// a per-level writer for the severity was added and removed again: the class device applies
+	LevelWriterGone bool `json:"level_writer_added_and_removed,omitempty"`
 }
 
 // failAfterStore writes the payload through and reports an error all the same.
@@ -117,6 +124,33 @@ func c12enumerate() []c12case {
 			}
 			m++
 		}
+	}
+	// package level Off before SetDefault (package entry points), os.Args rewritten (go test processes), a level writer
+	// added and removed (all)
+	k := 0
+	for _, b := range base {
+		if b.Format != "logfmt" || !b.Admit {
+			continue
+		}
+		var xs []c12case
+		if strings.HasPrefix(b.Entry, "pkg.") {
+			x := b
+			x.PkgLevelOff = true
+			xs = append(xs, x)
+		}
+		if b.Testing {
+			x := b
+			x.RewriteArgs = true
+			xs = append(xs, x)
+		}
+		x := b
+		x.LevelWriterGone = true
+		xs = append(xs, x)
+		if k%2 == 1 && len(xs) > 1 {
+			xs[0], xs[len(xs)-1] = xs[len(xs)-1], xs[0]
+		}
+		out = append(out, xs...)
+		k++
 	}
 	// the flag values are what counts, not the idiom that produced them
 	n := 0
@@ -193,6 +227,12 @@ func c12exec(c *Ctx, out string) {
 		fmt.Fprintln(os.Stderr, "harness usage error: flags not established", got)
 		os.Exit(3)
 	}
+	if cs.PkgLevelOff {
+		slog.SetLevel(slog.OffLevel)
+	}
+	if cs.RewriteArgs {
+		os.Args = []string{"myapp", "serve", "--port", "8080"}
+	}
 	var lgL slog.Logger = slog.New("c12")
 	lg := lgL.Root()
 	if cs.Kind == "child" {
@@ -220,6 +260,13 @@ func c12exec(c *Ctx, out string) {
 		lg.SetLevel(slog.PanicLevel) // admits Panic only: a Fatal record is below the threshold
 	default:
 		lg.SetLevel(slog.OffLevel)
+	}
+	if cs.LevelWriterGone {
+		decoy := failAfterStore{f} // never written to: it is removed again
+		for _, l := range []slog.Level{slog.PanicLevel, slog.FatalLevel} {
+			lg.AddLevelWriter(l, decoy)
+			lg.RemoveLevelWriter(l, decoy)
+		}
 	}
 	if cs.Kind == "default" {
 		slog.SetDefault(lgL)
